@@ -9,67 +9,12 @@ import AnthemModel.Model.External
 import AnthemModel.Proofs.SubstBasic
 import AnthemModel.Proofs.Decompose
 import AnthemModel.Proofs.DefinitionSem
+import AnthemModel.Proofs.InductionSound
+import AnthemModel.Proofs.OutlineSound
 namespace Anthem.C13
 
 /-- well-sorted assignment -/
-def WS (ρ : Asg) : Prop := ∀ v : Var, (ρ v).inSort v.sort
-
-theorem WS.set {ρ : Asg} (h : WS ρ) (v : Var) (d : Dom) (hd : d.inSort v.sort) : WS (ρ.set v d) := by
-  intro w
-  by_cases e : w = v
-  · subst e; simpa using hd
-  · rw [Asg.set_other _ _ e]; exact h w
-
-theorem allUpd_ws {L : List Var} {ρ τ : Asg} (h : WS ρ) (hτ : AllUpd L ρ τ) : WS τ := by
-  intro v
-  by_cases hv : v ∈ L
-  · exact hτ.2 v hv
-  · rw [hτ.1 v hv]; exact h v
-
-/-- a universally closed formula that is true makes its body true under every well-sorted
-    assignment -/
-theorem closure_elim (J : Interp) (G : Formula) (ρ : Asg) (h : sat J G.universalClosure ρ) :
-    ∀ τ : Asg, WS τ → sat J G τ := by
-  intro τ hτ
-  unfold Formula.universalClosure at h
-  rw [sat_quantify] at h
-  simp only [sat] at h
-  -- instantiate the closure with the values of τ on the free variables
-  let σ : Asg := fun v => if v ∈ G.fv then τ v else ρ v
-  have hσ : AllUpd G.fv ρ σ := ⟨fun v hv => by simp [σ, hv], fun v hv => by simp [σ, hv, hτ v]⟩
-  have := bindAll_iff.mp h σ hσ
-  refine (sat_agree J G σ τ ?_).mp this
-  intro v hv
-  simp [σ, Formula.mem_fv.mpr hv]
-
-/-- the only variable of `N + 1` is `N` itself, so substituting it never needs renaming -/
-theorem noRename_self (v : String) : ∀ F : Formula, NoRename [⟨v, .integer⟩] ⟨v, .integer⟩ F := by
-  intro F
-  induction F with
-  | atomic _ => trivial
-  | not f ih => exact ih
-  | bin c l r ihl ihr => exact ⟨ihl, ihr⟩
-  | quant q vs f ih =>
-    by_cases h : (⟨v, .integer⟩ : Var) ∈ vs
-    · exact Or.inl h
-    · refine Or.inr ⟨?_, ih⟩
-      intro x hx hmem
-      simp only [List.mem_singleton] at hmem
-      subst hmem; exact h hx
-
-theorem noRename_closed_term (w : Var) : ∀ F : Formula, NoRename [] w F := by
-  intro F
-  induction F with
-  | atomic _ => trivial
-  | not f ih => exact ih
-  | bin c l r ihl ihr => exact ⟨ihl, ihr⟩
-  | quant q vs f ih => exact Or.inr ⟨fun _ _ h => (by cases h), ih⟩
-
-theorem sat_subst_noRename (J : Interp) (F : Formula) (v : Var) (s : GTerm)
-    (hc : SortCompatible v s) (hn : NoRename s.vars v F) (ρ : Asg) :
-    sat J (F.subst v s) ρ ↔ sat J F (ρ.set v (s.eval J.fc ρ)) := by
-  have := ht_substFuel_noRename ⟨J.pred, J.pred, J.fc⟩ v s hc (F.depth + 1) F (Nat.le_succ _) hn .there ρ
-  rwa [ht_there_eq_sat, ht_there_eq_sat] at this
+abbrev WS := Outline.WS
 
 /-- **Soundness of the induction scheme.** `base` and `step` are exactly the two obligations
     `inductive_lemma` builds for `forall N$i … (N$i >= n -> F)`. If both are true in `J`, then `F`
@@ -80,37 +25,8 @@ theorem induction_sound (J : Interp) (F : Formula) (v : String) (n : Int) (ρ₀
     (hstep : sat J (Formula.bin .imp
         (.bin .and (.atomic (.cmp (.int (.var v)) [⟨.ge, .int (.num n)⟩])) F)
         (F.subst ⟨v, .integer⟩ (.int (.bin .add (.var v) (.num 1))))).universalClosure ρ₀) :
-    ∀ (τ : Asg), WS τ → ∀ z : Int, n ≤ z → sat J F (τ.set ⟨v, .integer⟩ (.num z)) := by
-  intro τ hτ z hz
-  have hcI : ∀ t : ITerm, SortCompatible ⟨v, .integer⟩ (.int t) :=
-    fun t => ⟨fun _ => ⟨t, rfl⟩, fun h => by cases h⟩
-  obtain ⟨k, rfl⟩ := Int.le.dest hz
-  clear hz
-  induction k with
-  | zero =>
-    have h := closure_elim J _ ρ₀ hbase τ hτ
-    rw [sat_subst_noRename J F ⟨v, .integer⟩ (.int (.num n)) (hcI _) (noRename_closed_term _ F)] at h
-    simpa [GTerm.eval, ITerm.eval] using h
-  | succ k ih =>
-    have hτ' : WS (τ.set ⟨v, .integer⟩ (.num (n + k))) := hτ.set _ _ trivial
-    have h := closure_elim J _ ρ₀ hstep _ hτ'
-    simp only [sat, AtomicF.sat, cmpChain, and_true] at h
-    have hge : Rel.holds .ge (GTerm.eval J.fc (τ.set ⟨v, .integer⟩ (.num (n + k))) (.int (.var v)))
-        (GTerm.eval J.fc (τ.set ⟨v, .integer⟩ (.num (n + k))) (.int (.num n))) := by
-      simp [GTerm.eval, ITerm.eval, Rel.holds, Dom.le, Dom.toInt]; omega
-    have h2 := h ⟨hge, ih⟩
-    rw [sat_subst_noRename J F ⟨v, .integer⟩ (.int (.bin .add (.var v) (.num 1))) (hcI _) (noRename_self v F)] at h2
-    have e : ((τ.set ⟨v, .integer⟩ (.num (n + k))).set ⟨v, .integer⟩
-        (GTerm.eval J.fc (τ.set ⟨v, .integer⟩ (.num (n + k))) (.int (.bin .add (.var v) (.num 1))))) =
-        τ.set ⟨v, .integer⟩ (.num (n + ((k + 1 : Nat) : Int))) := by
-      funext w
-      by_cases hw : w = ⟨v, .integer⟩
-      · subst hw
-        simp only [Asg.set_same, GTerm.eval, ITerm.eval, IOp.eval, Dom.toInt]
-        congr 1; omega
-      · simp [Asg.set_other _ _ hw]
-    rw [e] at h2
-    exact h2
+    ∀ (τ : Asg), WS τ → ∀ z : Int, n ≤ z → sat J F (τ.set ⟨v, .integer⟩ (.num z)) :=
+  Outline.induction_sound J F v n ρ₀ hbase hstep
 
 /-- What `inductive_lemma` returns is exactly the pair of obligations used above. -/
 theorem inductiveLemma_shape (vars : List Var) (v : String) (n : Int) (rhs : Formula)
@@ -217,35 +133,34 @@ theorem outline_sequencing (dirName : String) (axioms0 : List AnnF) (lemmas : Li
       (indexFrom 0 lemmas).flatMap fun (k, l) =>
         (indexFrom 0 l.conjectures).map fun (j, c) =>
           mkProblem (dirName ++ "_outline_" ++ toString k ++ "_" ++ toString j)
-            [axioms0 ++ (lemmas.take k).flatMap (·.consequences), [c]] := by
-  unfold outlineProblems
-  suffices h : ∀ (ls pre : List GeneralLemma) (ps : List Problem),
-      (ls.foldl (fun (acc : List Problem × List AnnF × Nat) (l : GeneralLemma) =>
-        (acc.1 ++ (indexFrom 0 l.conjectures).map fun (j, c) =>
-            mkProblem (dirName ++ "_outline_" ++ toString acc.2.2 ++ "_" ++ toString j) [acc.2.1, [c]],
-          acc.2.1 ++ l.consequences, acc.2.2 + 1))
-        (ps, axioms0 ++ pre.flatMap (·.consequences), pre.length)).1 =
-      ps ++ (indexFrom pre.length ls).flatMap fun (k, l) =>
-        (indexFrom 0 l.conjectures).map fun (j, c) =>
-          mkProblem (dirName ++ "_outline_" ++ toString k ++ "_" ++ toString j)
-            [axioms0 ++ ((pre ++ ls).take k).flatMap (·.consequences), [c]] by
-    have := h lemmas [] []
-    simpa using this
-  intro ls
-  induction ls with
-  | nil => intro pre ps; simp [indexFrom]
-  | cons l ls ih =>
-    intro pre ps
-    simp only [List.foldl_cons, indexFrom, List.flatMap_cons]
-    have := ih (pre ++ [l]) (ps ++ (indexFrom 0 l.conjectures).map fun (j, c) =>
-      mkProblem (dirName ++ "_outline_" ++ toString pre.length ++ "_" ++ toString j)
-        [axioms0 ++ pre.flatMap (·.consequences), [c]])
-    simp only [List.flatMap_append, List.flatMap_cons, List.flatMap_nil, List.append_nil,
-      List.length_append, List.length_cons, List.length_nil, Nat.zero_add, List.append_assoc,
-      List.singleton_append] at this
-    rw [← List.append_assoc axioms0] at this
-    rw [this]
-    simp only [List.take_left' (l₂ := l :: ls) rfl]
+            [axioms0 ++ (lemmas.take k).flatMap (·.consequences), [c]] :=
+  Outline.outline_sequencing dirName axioms0 lemmas
+
+/-- **Every lemma of an accepted outline is justified by its obligations**: what a lemma (plain or
+    inductive) contributes as an axiom is true, under the same interpretation and assignment,
+    whenever its obligations are; obligations carry the role conjecture, contributions the role axiom. -/
+theorem accepted_outline_lemmas_justified (spec : Specification) (taken : List Pred) (m : PlaceholderMap)
+    (po : ProofOutline) (h : proofOutlineFrom spec taken m = .ok po) :
+    (∀ l ∈ po.forwardLemmas, Outline.GLGood l) ∧ (∀ l ∈ po.backwardLemmas, Outline.GLGood l) :=
+  Outline.proofOutlineFrom_good spec taken m po h
+
+/-- **Soundness of an outline** (the statement of the property): with the lemmas of an accepted
+    outline, an interpretation that satisfies the axioms of the direction (premises and accepted
+    definitions) and refutes none of the emitted outline problems satisfies every lemma that the
+    outline makes available as an axiom - so no unjustified claim becomes an axiom. `hnc`: the
+    symbol-renaming step is the identity on the outline problems (cf. the C03 finding). -/
+theorem outline_sound (dirName : String) (axioms0 : List AnnF) (lemmas : List GeneralLemma)
+    (hgood : ∀ l ∈ lemmas, Outline.GLGood l)
+    (hnc : Outline.NoConflictOutline dirName axioms0 lemmas) (J : Interp) (ρ : Asg)
+    (hnot : ∀ P ∈ outlineProblems dirName axioms0 lemmas, ¬ Refutes J ρ P)
+    (hax : ∀ a ∈ axioms0, sat J a.formula ρ) :
+    ∀ l ∈ lemmas, ∀ c ∈ l.consequences, sat J c.formula ρ :=
+  Outline.outline_sound dirName axioms0 lemmas (fun l hl => (hgood l hl).1) (fun l hl => (hgood l hl).2.1) hnc J ρ hnot hax
+
+/-- the two obligations of an inductive lemma imply the lemma itself (whatever its shape) -/
+theorem inductive_lemma_justified (f base step : Formula) (h : inductiveLemma f = .ok (base, step)) (J : Interp) (ρ : Asg)
+    (hb : sat J base ρ) (hs : sat J step ρ) : sat J f ρ :=
+  Outline.inductiveLemma_sound f base step h J ρ hb hs
 
 /-- Non-vacuity: an inductive lemma whose variable is also bound inside `F` and whose start value
     is negative is accepted and yields two obligations (kernel-evaluated). -/
